@@ -251,7 +251,9 @@ func TestTrace(t *testing.T) {
 		}
 	}
 	// (2) messages around the 512-byte initial buffer and around the limit, announced lengths vs. limit
-	bigA := [][]int{{520}, {504, 16}, {512, 8}, {520, 520}, {1048576}, {1048584}, {8, 1048568, 8}, {1073741824}, {2147483640}, {4294967288}}
+	// the last four: messages that make the receiver's buffer grow more than once on one stream
+	bigA := [][]int{{520}, {504, 16}, {512, 8}, {520, 520}, {1048576}, {1048584}, {8, 1048568, 8}, {1073741824}, {2147483640}, {4294967288},
+		{16, 600, 40, 1000}, {3000, 104, 9000, 24}, {520, 1048576}, {1000, 2000, 4000, 8000, 16000}}
 	for _, A := range bigA {
 		total := 0
 		for _, a := range A {
